@@ -483,6 +483,7 @@ func (e *Extractor) expandAlternateContribution(alt *syntax.Regexp, depth int) *
 		result.Dedup()
 		if result.Len() > e.config.MaxLiterals {
 			result.literals = result.literals[:e.config.MaxLiterals]
+			result.partialCoverage = true
 		}
 	}
 
@@ -555,6 +556,7 @@ func (e *Extractor) handleCrossProductOverflow(s *Seq) *Seq {
 	// If still over MaxLiterals after dedup, truncate the list
 	if s.Len() > e.config.MaxLiterals {
 		s.literals = s.literals[:e.config.MaxLiterals]
+		s.partialCoverage = true
 	}
 	return s
 }
@@ -888,6 +890,7 @@ func (e *Extractor) expandCaseFoldLiteral(runes []rune) *Seq {
 	result.Dedup()
 	if result.Len() > e.config.MaxLiterals {
 		result.literals = result.literals[:e.config.MaxLiterals]
+		result.partialCoverage = true
 	}
 	return result
 }
